@@ -65,6 +65,7 @@ func TestMain(m *testing.M) {
 		"div: dividend > 2^64 and 1 < divisor <= dividend; cmp: limbs of the two operands order in conflicting directions (64 bits: operands differ); bits: both operands neither 0 nor all-ones; "+
 		"cast: the value is not zero; kmer: k-mer longer than 32 nucleotides or sparse mask in use. Distinct = hash of (check, width, A, B, N). "+
 		"Concurrent callers (check \"concurrent\"): a case = 4..24 operand pairs (a third of them sharing the second operand: same divisor / factor again and again) x one group x 2/4/8 goroutines x 50/200 rounds; every goroutine evaluates the group on every pair, each result judged against math/big as above, after a single-caller pass on the same pairs; non-trivial = at least 2 goroutines and 4 pairs. "+
+		"First use (check \"firstuse\", rule in rule_firstuse): the concurrent case handed to fresh processes whose first calls into the package are concurrent ones. "+
 		"Every group runs on its own goroutine under a 5 s watchdog (three consecutive expiries = non-termination; the test stops after the first such case)."+kmapRule)
 	evid.Main(m, "C20")
 }
